@@ -350,7 +350,12 @@ class EvalMixin(InterpBase):
         return self.comprehension(node, fr, node.elt)
 
     def ev_GeneratorExp(self, node, fr):
-        return self.comprehension(node, fr, node.elt)
+        r = self.comprehension(node, fr, node.elt)
+        if not fr.spec and isinstance(r, ListV) and r.items is not None:
+            # a generator object is ONE-SHOT: whoever iterates it a second time finds it empty (elements are computed eagerly here,
+            # which is the same for the pure element expressions the subset allows)
+            return IterV(r, 0)
+        return r
 
     def comprehension(self, node, fr, elt):
         if len(node.generators) != 1:
@@ -361,6 +366,13 @@ class EvalMixin(InterpBase):
             src = ListV(list(src), kind="tuple")
         if isinstance(src, DictV):
             src = ListV(src.keys())
+        if isinstance(src, IterV):
+            src = self.as_list(src, fr)
+        if isinstance(src, Opaque) and isinstance(src.what, tuple) and src.what[0] in ("enumerate", "zip"):
+            seqs = [self.as_list(x, fr) for x in (src.what[1] if src.what[0] == "zip" else [src.what[1]])]
+            if all(q.items is not None for q in seqs):
+                n = min(len(q.items) for q in seqs)
+                src = ListV([((k, seqs[0].items[k]) if src.what[0] == "enumerate" else tuple(q.items[k] for q in seqs)) for k in range(n)])
         if isinstance(src, Opaque) and isinstance(src.what, tuple) and src.what[0] == "range":
             lo, hi = src.what[1], src.what[2]
             if isinstance(lo, int) and isinstance(hi, int):
